@@ -690,10 +690,14 @@ def check_C10(ctx):
         for k in ks:
             code = CODES[ci % len(CODES)]
             ci += 1
-            if kind == 'w':
-                cases.append((kind, r, k, code, log, 'fenc T%d %d %d %s' % (r['tid'], k, code, r['input']), 'fenc T%d %d %d %s' % (r['tid'], k, code, r['h']['dump'])))
-            else:
-                cases.append((kind, r, k, code, log, 'fdec T%d %d %d %s -' % (r['tid'], k, code, r['h']['bytes']), 'fdec T%d %d %d %s -' % (r['tid'], k, code, r['h']['bytes'])))
+            # the pointer and unique_ptr specialisations of Serializer / Deserializer take turns with the plain one
+            # (same model line: they must behave alike); a failing Prepare (k = 0) goes through all three
+            fls = ('', 'p', 'u') if (kind == 'w' and k == 0) else (('', 'p', 'u')[ci % 3],)
+            for fl in fls:
+                if kind == 'w':
+                    cases.append((kind, r, k, code, log, 'fenc%s T%d %d %d %s' % (fl, r['tid'], k, code, r['input']), 'fenc T%d %d %d %s' % (r['tid'], k, code, r['h']['dump'])))
+                else:
+                    cases.append((kind, r, k, code, log, 'fdec%s T%d %d %d %s -' % (fl, r['tid'], k, code, r['h']['bytes']), 'fdec T%d %d %d %s -' % (r['tid'], k, code, r['h']['bytes'])))
     ho = run_harness(pool, [c[5] for c in cases])
     mo = run_driver(pool, [c[6] for c in cases])
     for (kind, r, k, code, log, hl, ml), o, m in zip(cases, ho, mo):
@@ -881,6 +885,35 @@ def check_C07(ctx):
                          'read': d['hraw'], 'expected': want})
         elif d['m'] is not None and not (same(d['h'], d['m'], ('st', 'consumed')) and val_eq(d['h'].get('val'), d['m'].get('val'))):
             dbroken.append(d)
+    # the same cross-version reads through the library's own readers, a forward-only stream (no seekg/tellg) included
+    lib = []
+    for d in drows:
+        if d['h'] is None or d['case'].count('(') == 0 and False:
+            continue
+        a, r = d['tag']
+        hx = r['h']['bytes']
+        if not hx or hx == '-':
+            continue
+        for rk in ('buf', 'stream', 'nsstream', 'fstream', 'bbuf'):
+            lib.append((d, a, r, rk, 'decr T%d %s %d %s' % (d['tid'], rk, hexlen(hx) + 1, hx + '2a')))
+    seen_lib = set()
+    lib = [x for x in lib if not (x[4] in seen_lib or seen_lib.add(x[4]))]
+    lo = run_harness(pool, [x[4] for x in lib])
+    for (d, a, r, rk, line), o in zip(lib, lo):
+        if o == 'unsupported':
+            continue
+        ctx.count('cross-version:' + rk, line)
+        if o.startswith(('CRASH', 'HARNESS', 'OOM', 'EXCEPTION')):
+            ctx.violate('crash:' + rk, 'reader %s crashed on a cross-version read: %s -> %s' % (rk, line[:160], o[:300]), {'case': line, 'output': o})
+            continue
+        f = sx.fields(o)
+        want = sx.show(sx.canon(project(pool.types[a], pool.types[d['tid']], sx.parse(r['h']['dump'])[0])))
+        n = hexlen(r['h']['bytes'])
+        if f.get('st') != '0' or not val_eq(f.get('val'), want) or f.get('consumed') != str(n):
+            ctx.violate('cross-version:' + rk, 'data written with one table definition did not read correctly with another through reader %s: writer %s value %s, reader %s got %s (expected %s, %d bytes)'
+                        % (rk, type_desc(pool, a)[:80], r['h']['dump'][:80], type_desc(pool, d['tid'])[:80], o[:120], want[:80], n),
+                        {'writer': type_desc(pool, a), 'reader': type_desc(pool, d['tid']), 'value': r['h']['dump'], 'bytes': r['h']['bytes'],
+                         'case': line, 'read': o, 'expected': want})
     report_broken(ctx, broken, 'enc', 'Serializer::Write = model enc')
     report_broken(ctx, dbroken, 'dec', 'Deserializer::Read = model dec')
     return finish_with_proofs(ctx, {'version_pairs': len(pairs)})
@@ -1064,7 +1097,7 @@ def check_C08(ctx):
         hx = d['hex']
         if not hx or hx == '-':
             continue
-        for rk in ('buf', 'ped', 'stream', 'fstream', 'bbuf'):
+        for rk in ('buf', 'ped', 'stream', 'nsstream', 'fstream', 'bbuf'):
             lib.append((d, rk, 'decr T%d %s %d %s' % (d['tid'], rk, hexlen(hx), hx)))
     lo = run_harness(pool, [x[2] for x in lib])
     for (d, rk, line), o in zip(lib, lo):
